@@ -188,15 +188,29 @@ impl Cases {
         v.push_str(imports);
         v.push_str("\nFrom AM Require Import Corr.Common.\nOpen Scope N_scope.\nOpen Scope string_scope.\n");
         for (name, ty, items) in &self.coq_defs {
-            let _ = write!(v, "Definition {} : list ({}) := [\n", name, ty);
-            for (i, it) in items.iter().enumerate() {
-                if i > 0 {
-                    v.push_str(";\n");
+            // very long list literals overflow coqc's stack: write them in chunks and append
+            const CHUNK: usize = 4000;
+            let chunks: Vec<&[String]> = if items.len() > CHUNK { items.chunks(CHUNK).collect() } else { vec![&items[..]] };
+            let many = chunks.len() > 1;
+            for (k, chunk) in chunks.iter().enumerate() {
+                if many {
+                    let _ = write!(v, "Definition {}_part{} : list ({}) := [\n", name, k, ty);
+                } else {
+                    let _ = write!(v, "Definition {} : list ({}) := [\n", name, ty);
                 }
-                v.push_str("  ");
-                v.push_str(it);
+                for (i, it) in chunk.iter().enumerate() {
+                    if i > 0 {
+                        v.push_str(";\n");
+                    }
+                    v.push_str("  ");
+                    v.push_str(it);
+                }
+                v.push_str("\n].\n");
             }
-            v.push_str("\n].\n");
+            if many {
+                let parts: Vec<String> = (0..chunks.len()).map(|k| format!("{name}_part{k}")).collect();
+                let _ = write!(v, "Definition {} : list ({}) := ({})%list.\n", name, ty, parts.join(" ++ "));
+            }
         }
         for (g, f) in checks {
             // a checker named `*_code` classifies (0 = fine), any other returns a bool
